@@ -426,8 +426,12 @@ def jobs_C14(tier):
                     if q and (p != 'd' or mat > 1):
                         continue
                     j += fjob(p, 'lwork', mat, drv, P, slices=8 if q else 16, extra=['--step', '4'])
-                if not q or p == 'd':
-                    j += fjob(p, 'fill', mat, drv, 2)
+                    # user workspace with tight sp_ienv(7)/(8): the window in which L/U fit but the working arrays do not (added after seeded change C14/2)
+                    if not q or mat in (0, 3):
+                        j += fjob(p, 'lworktight', mat, drv, P, slices=4 if q else 16, extra=['--step', '4'])
+                for P in (1, 2):
+                    if not q or p == 'd':
+                        j += fjob(p, 'fill', mat, drv, P)
     return j
 
 
